@@ -288,6 +288,8 @@ type writeRun struct {
 	results  []string // per op: ok<n> | closed | err:<msg>
 	closeErr error    // result of the first Close
 	closed   bool
+	nexts    []int // Writer.Next() observed before each op (-1: Next returned an error)
+	lastNext int   // scripts without Close: Writer.Next() after the last op (bytes held in the active block)
 	hang     string // op index description when the watchdog fired
 	panicked *callOutcome
 }
@@ -336,6 +338,11 @@ func runWriter(c *ctx, in bgzfInput, wc int, data []byte) writeRun {
 	for i, k := range kinds {
 		var res string
 		o := guardTimeout(bgzfWatchdog(c), func() {
+			if nx, e := w.Next(); e == nil {
+				wr.nexts = append(wr.nexts, nx)
+			} else {
+				wr.nexts = append(wr.nexts, -1)
+			}
 			switch k {
 			case 'w':
 				var p []byte
@@ -377,6 +384,29 @@ func runWriter(c *ctx, in bgzfInput, wc int, data []byte) writeRun {
 			return wr
 		}
 		wr.results = append(wr.results, res)
+	}
+	if !wr.closed {
+		// a script without Close: let the writer come to rest (Wait), look at what has been delivered, then close
+		// the writer only to release its goroutines (that output is discarded)
+		var snap []byte
+		o := guardTimeout(bgzfWatchdog(c), func() {
+			if e := w.Wait(); e != nil {
+				panic("Wait at the end of an unclosed script: " + e.Error())
+			}
+			snap = append([]byte{}, uw.buf.Bytes()...)
+			wr.lastNext, _ = w.Next()
+			w.Close()
+		})
+		if o.timedOut {
+			wr.hang = "Wait/Close at the end of an unclosed script"
+			return wr
+		}
+		if o.panicked {
+			wr.panicked = &o
+			return wr
+		}
+		wr.out = snap
+		return wr
 	}
 	wr.out = uw.buf.Bytes()
 	return wr
@@ -771,6 +801,88 @@ func runReader(c *ctx, file []byte, rd int, ops []string) readRun {
 	return rr
 }
 
+
+// ---------------------------------------------------------------------------
+// tie of Member.readStream (the reader half of the round-trip theorem) to bgzf.Reader on produced bytes
+
+// readBlocksBlocked reads `file` with the real reader in Blocked mode: every Read ends at the end of the
+// current block, so the lengths of the non-empty blocks the READER finds are observable.
+func readBlocksBlocked(c *ctx, file []byte, rd int) (lens []int, data []byte, errc string, o callOutcome) {
+	o = guardTimeout(bgzfWatchdog(c), func() {
+		rdr, err := bgzf.NewReader(bytes.NewReader(file), rd)
+		if err != nil {
+			errc = "newreader:" + err.Error()
+			return
+		}
+		defer rdr.Close()
+		rdr.Blocked = true
+		buf := make([]byte, 1<<17)
+		for {
+			n, err := rdr.Read(buf)
+			if n > 0 {
+				lens = append(lens, n)
+				data = append(data, buf[:n]...)
+			}
+			if err != nil && err != io.EOF {
+				errc = "read:" + err.Error()
+				return
+			}
+			if n == 0 && err == io.EOF {
+				return
+			}
+			if n == 0 && err == nil {
+				errc = "read: 0, nil"
+				return
+			}
+		}
+	})
+	return
+}
+
+func dataHash01(b []byte) uint64 { // = Hts.Drv.C10.dataHash
+	var h uint64
+	for _, x := range b {
+		h = (h*131 + uint64(x) + 1) % 4294967291
+	}
+	return h
+}
+
+// readStreamTie queues `c01.readstream` for the produced bytes: the model's member walk (gzip header incl.
+// Name/Comment/Extra, expectedMemberSize, BSIZE-delimited buffer, inflate, CRC/ISIZE) must find the same
+// non-empty blocks and data as the library reader, or both must refuse the stream. `ms` = the members found by
+// the harness's independent parser (they supply the inflate table); prop = "c01" | "c08" for signatures.
+func readStreamTie(c *ctx, prop string, in bgzfInput, out []byte, ms []gzMember, rd int, d *Driver, impl *[]string) {
+	r := c.res
+	lens, data, errc, o := readBlocksBlocked(c, out, rd)
+	if o.timedOut {
+		r.fail(prop+".hang.reader", "Blocked-mode read of the writer's output did not return", in)
+		return
+	}
+	if o.panicked {
+		r.fail(prop+".panic:"+topRepoFrame(o.stack), o.panicVal, in)
+		return
+	}
+	var tbl []string
+	nblocks := 0
+	for _, m := range ms {
+		// the buffer readMember hands to inflate: DEFLATE stream + 8-byte trailer
+		tbl = append(tbl, fmt.Sprintf("%d:%d:%d:%s", m.Off+m.HdrLen, m.Size-m.HdrLen, m.DeflateLen, hexs(m.Payload)))
+		nblocks++
+	}
+	tb := "-"
+	if len(tbl) > 0 {
+		tb = strings.Join(tbl, ",")
+	}
+	d.add("c01.readstream %s %s", hexs(out), tb)
+	if errc != "" {
+		r.hist("readstream.reader-refuses")
+		*impl = append(*impl, "none")
+		return
+	}
+	r.hist("readstream.ok")
+	*impl = append(*impl, fmt.Sprintf("%s|%d|%d", intsJoin(lens), nblocks, dataHash01(data)))
+}
+
 // ---------------------------------------------------------------------------
 // one C01 case
 
@@ -928,6 +1040,10 @@ func c01One(c *ctx, inp *bgzfInput, d *Driver, impl *[]string) {
 	if d != nil {
 		d.add("c01.read %s %s", intsJoin(plens), strings.Join(readOps, ","))
 		*impl = append(*impl, strings.Join(rr.results, ","))
+		// correspondence 3: the model's member walk over the produced BYTES (Member.readStream) = the library reader
+		if len(wr.out)+len(want) <= 24000 || c.rnd.coin(1, 10) {
+			readStreamTie(c, "c01", in, wr.out, ms, in.RD, d, impl)
+		}
 	}
 }
 
